@@ -3,6 +3,8 @@
 package zzverif
 
 import (
+	"math/big"
+
 	modeltypes "github.com/SaoNetwork/sao/x/model/types"
 	ordertypes "github.com/SaoNetwork/sao/x/order/types"
 	saotypes "github.com/SaoNetwork/sao/x/sao/types"
@@ -14,10 +16,15 @@ import (
 // the order the shard is serving, and every queued renewal order - lists the new shard instead afterwards;
 // none keeps the id of the removed shard. Covers both histories: renewal before MsgMigrate (the renewal order
 // is the one the message names) and MsgMigrate before the renewal (the renewal order copied both shard ids).
-func Ob_C13_Complete_Migration_Renewed() {
+func Ob_C13_Complete_Migration_Renewed() { renewedMigration(false) }
+
+// the history "MsgMigrate, then two renewals": both renewal orders copied [old shard, migrating shard]
+func Ob_C13_Complete_Migration_TwoRenewals() { renewedMigration(true) }
+
+func renewedMigration(two bool) {
 	w := NewWorld()
 	sym.SetBound("Order.Shards", 2)
-	sym.SetBound("Shard.RenewInfos", 1)
+	sym.SetBound("Shard.RenewInfos", 2)
 	sym.SetBound("Metadata.Orders", 0)
 	var msg saotypes.MsgComplete
 	sym.Fill("msg", &msg)
@@ -28,15 +35,30 @@ func Ob_C13_Complete_Migration_Renewed() {
 	ns, fn := w.Order.GetShard(w.Ctx, o.Shards[1])
 	sym.Assume(fo && fn && old.Status == ordertypes.ShardCompleted && old.Id == o.Shards[0] &&
 		ns.Status == ordertypes.ShardMigrating && ns.Sp == msg.Provider && ns.From == old.Sp && ns.Sp != old.Sp && ns.Id == o.Shards[1] && ns.Size_ == old.Size_ && len(ns.RenewInfos) == 0)
-	sym.Assume(len(old.RenewInfos) == 1 && old.OrderId == o.Id)
+	sym.Assume(len(old.RenewInfos) >= 1 && old.OrderId == o.Id)
+	if two {
+		sym.Assume(len(old.RenewInfos) == 2)
+	} else if sym.Tier() == "quick" {
+		sym.Assume(len(old.RenewInfos) == 1)
+	}
 	sym.Assume(uint64(w.Height()) >= old.CreatedAt && uint64(w.Height()) < old.CreatedAt+old.Duration)
-	// the queued renewal order lists the shard it renews (and, if it was created after MsgMigrate, the migrating one too)
-	rid := old.RenewInfos[0].OrderId
-	r, fr := w.Order.GetOrder(w.Ctx, rid)
-	sym.Assume(fr && r.Id == rid && r.Operation == 3 && inListU64(old.Id, r.Shards))
-	for i := range r.Shards {
-		for j := 0; j < i; j++ {
-			sym.Assume(r.Shards[i] != r.Shards[j])
+	// every queued renewal order lists the shard it renews (and, if it was created after MsgMigrate, the migrating
+	// one too); renewal orders are distinct
+	rids := make([]uint64, len(old.RenewInfos))
+	for k, info := range old.RenewInfos {
+		rids[k] = info.OrderId
+		r, fr := w.Order.GetOrder(w.Ctx, info.OrderId)
+		sym.Assume(fr && r.Id == info.OrderId && r.Operation == 3 && inListU64(old.Id, r.Shards) && info.Pledge.Amount.IsZero())
+		if two {
+			sym.Assume(len(r.Shards) == 2 && r.Shards[0] == old.Id && r.Shards[1] == ns.Id && r.Id != o.Id)
+		}
+		for i := range r.Shards {
+			for j := 0; j < i; j++ {
+				sym.Assume(r.Shards[i] != r.Shards[j])
+			}
+		}
+		for j := 0; j < k; j++ {
+			sym.Assume(rids[j] != rids[k])
 		}
 	}
 	m, fm := w.Model.GetMetadata(w.Ctx, o.DataId)
@@ -49,6 +71,16 @@ func Ob_C13_Complete_Migration_Renewed() {
 	sym.Assume(!hasDebtA)
 	wb0, hadWb := w.Market.GetWorker(w.Ctx, workerName(ns.Sp))
 	sym.Assume(!hadWb || wb0.LastRewardAt <= w.Height())
+	// a quiet new provider (its pledge bookkeeping is C07's subject): a fresh pledge record without debt, enough funds,
+	// no node record to credit reputation to
+	pb, fpb := w.Node.GetPledge(w.Ctx, ns.Sp)
+	_, hasDebtB := w.Node.GetPledgeDebt(w.Ctx, ns.Sp)
+	_, hasNodeB := w.Node.GetNode(w.Ctx, ns.Sp)
+	sym.Assume(fpb && !hasDebtB && !hasNodeB && pb.TotalStorage == 1<<41 && pb.UsedStorage == 0)
+	sym.Assume(w.Bal(ns.Sp, WorldDenom).Cmp(newInt64Big(1<<62)) >= 0)
+	// the money side of the hand-over is Ob_C04C11C13C14_Complete_Migration's subject: here the price and the renewal
+	// pledge are zero and there is one replica, so that only the re-listing logic branches
+	sym.Assume(o.UnitPrice.Amount.IsZero() && o.Replica == 1 && o.Amount.Amount.LT(sdk.NewInt(1<<40)))
 	var err error
 	panicked, _ := sym.Catch(func() { _, err = w.SaoMsg.Complete(sdk.WrapSDKContext(w.Ctx), &msg) })
 	if panicked || err != nil {
@@ -57,15 +89,13 @@ func Ob_C13_Complete_Migration_Renewed() {
 	sym.Cover("C13.renewed-migration-completes")
 	_, oldStill := w.Order.GetShard(w.Ctx, old.Id)
 	sym.Assert("C13.renewed-migration-removes-old-shard", !oldStill)
-	r1, fr1 := w.Order.GetOrder(w.Ctx, rid)
-	sym.AssertKF("C13.renewal-order-drops-removed-shard", fr1 && !inListU64(old.Id, r1.Shards), sym.KF("KF-C13-1", rid != o.Id))
-	n := 0
-	for _, id := range r1.Shards {
-		if id == ns.Id {
-			n++
-		}
+	for _, rid := range rids {
+		r1, fr1 := w.Order.GetOrder(w.Ctx, rid)
+		sym.Assert("C13.renewal-order-drops-removed-shard", fr1 && !inListU64(old.Id, r1.Shards))
+		sym.Assert("C13.renewal-order-lists-new-shard-once", countU64(ns.Id, r1.Shards) == 1)
 	}
-	sym.AssertKF("C13.renewal-order-lists-new-shard-once", n == 1, sym.KF("KF-C13-1", rid != o.Id))
 	n1, f1 := w.Order.GetShard(w.Ctx, ns.Id)
-	sym.Assert("C13.new-shard-inherits-renewals", f1 && len(n1.RenewInfos) == 1 && n1.RenewInfos[0].OrderId == rid)
+	sym.Assert("C13.new-shard-inherits-renewals", f1 && len(n1.RenewInfos) == len(rids) && n1.RenewInfos[0].OrderId == rids[0])
 }
+
+func newInt64Big(x int64) *big.Int { return big.NewInt(x) }
